@@ -11,7 +11,7 @@ META = {
         "state is rewritten before returning; R2 tag tables: per codec pair, the tag an encoder writes for a variant is a tag the decoder maps "
         "back to that variant, and unknown tags end in Err; R4 tainted length arithmetic: a 64-bit length read from the wire never enters an "
         "unchecked +,* or - nor a split/advance length without a dominating bound (a corrupt length must give an error, not a panic); "
-        "R5 panic audit of the decode bodies."),
+        "R5 panic audit of the decode bodies; R6 discard accounting: when a decoder drops the buffered part of a body it measures the dropped size before clearing the buffer."),
     "does_not_decide": "equality of decoded and encoded messages for all values (bodies are Recon, C09); silently wrong messages produced by mutated valid streams inside a body",
 }
 
@@ -344,6 +344,52 @@ def run(ctx):
                 elif kind.startswith("assert:BoundsCheck") and any(parse_cmp(d) for d, l, _ in g):
                     why = "bounds check preceded by a length comparison"
                 r.check(why is not None, "%s/%s@%s" % (tag, kind, _short(desc)), b.loc(line), "%s: %s" % (kind, why), "potential panic in a decoder fed from a byte channel: %s %s" % (kind, desc[:80]))
+
+    with ctx.rule("C10.R6", "T1", "discard accounting: the number of bytes dropped from src is measured before they are dropped", floor=4) as r:
+        # After src.clear() (or split()/split_to(len)) the buffer is empty: a remaining()/len() read after it is always 0.
+        # A decoder that skips a partially received body must subtract what it dropped from its `remaining` counter,
+        # so that size has to be sampled *before* the bytes are discarded.
+        SIZE = {"remaining", "len", "remaining_mut"}
+        n = 0
+        for c, b in decs:
+            tag = (b.meta.get("self_adt") or "?").split("::")[-1]
+            empt = [x for x in b.calls if x.name in ("clear",) and x.args and src_root(b, x.args[0], through_calls=False) == 2]
+            if not empt:
+                continue
+            ctx.saw(b)
+            sizes = [x for x in b.calls if x.name in SIZE and x.args and src_root(b, x.args[0], through_calls=False) == 2]
+            fills = {x.block for x in b.calls if x.name in ("put", "put_slice", "extend_from_slice", "unsplit", "put_u8", "reserve") and x.args and src_root(b, x.args[0], through_calls=False) == 2}
+            for k_, e in enumerate(sorted(empt, key=lambda x: x.line)):
+                n += 1
+                stale = []
+                for sz in sizes:
+                    if sz.block != e.block and b.dominates(e.block, sz.block) and b.path_avoiding(b.succ[e.block], {sz.block}, avoid=fills) is not None:
+                        # is the stale size used in arithmetic or stored?
+                        used = False
+                        for i, j, p, rv, line in b.assigns():
+                            if rv[0] in ("bin", "checked_bin") or (rv[0] == "agg"):
+                                ops = rv[2:] if rv[0] != "agg" else rv[2]
+                                for o in ops:
+                                    if isinstance(o, list) and o and o[0] in ("c", "m") and any(s_[0] == "call" and s_[1] is sz for s_ in b.sources(o)):
+                                        used = True
+                        if used:
+                            stale.append(sz)
+                gd = [l for d, l, _ in dom_guards(b, e.block) if d.startswith("disc(") and "state" in d]
+                # positive half: in the arm that clears src a counter is reduced by a (fresh) size of src
+                acc = []
+                for i, j, p, rv, line in b.assigns():
+                    if rv[0] in ("bin", "checked_bin") and rv[1] in ("Sub", "SubWithOverflow", "SubUnchecked"):
+                        arm = [l for d, l, _ in dom_guards(b, i) if d.startswith("disc(") and "state" in d]
+                        if arm[:1] != gd[:1]:
+                            continue
+                        if any(s_[0] == "call" and s_[1] in sizes and s_[1] not in stale for s_ in b.sources(rv[3])) and (b.dominates(i, e.block) or b.dominates(e.block, i)):
+                            acc.append(line)
+                r.check(bool(acc), "%s/%s/clear#%d/dropped-bytes-subtracted" % (tag, gd[0] if gd else "-", k_), e.loc(), "the arm subtracts src's size from its counter (line %s)" % acc[:1],
+                        "src.clear() drops the buffered part of the frame but no counter is reduced by src's size in this arm: the decoder loses track of how much of the frame is still to come")
+                r.check(not stale, "%s/%s/clear#%d/size-sampled-before-discard" % (tag, gd[0] if gd else "-", k_), e.loc(), "no size of src is computed after src.clear() and used in the progress counter",
+                        "src.%s() at line %d is evaluated after src.clear() (always 0) and used in arithmetic: the bytes just dropped are not accounted for, so the decoder discards too much of the following frames" % (stale[0].name, stale[0].line) if stale else "")
+        if n < 4:
+            raise AnchorMissing("expected >= 4 src.clear() sites in decoders, found %d" % n)
 
 
 def _short(d):
